@@ -525,3 +525,46 @@ class Opaque:
 
     def __repr__(self):
         return f"<opaque {object.__getattribute__(self, '_name')}>"
+
+
+# --------------------------------------------------------------------------------------
+class SArr:
+    """1-D array of reals with symbolic length n (z3 Array Int -> Real).  Integer indexing follows JAX exactly:
+    negative indices wrap, out-of-range indices are clamped; every access also records the side condition
+    0 <= i < n (NumPy/JAX wrap or clamp silently, which is never what a contract wants)."""
+
+    def __init__(self, n, arr, name="arr"):
+        self.n, self.arr, self.name = n, arr, name
+
+    def norm_index(self, e):
+        w = z3.If(e < 0, e + self.n, e)
+        return z3.If(w < 0, z3.IntVal(0), z3.If(w > self.n - 1, self.n - 1, w))
+
+    def __getitem__(self, i):
+        if isinstance(i, (slice, tuple)):
+            from .interp import Untranslatable
+
+            raise Untranslatable("slice of a symbolic array")
+        e = z3.simplify(lift(i))
+        it = cur()
+        in_range = z3.And(e >= 0, e < self.n)
+        if it is not None:
+            it.side_condition("index", in_range, f"index into {self.name}")
+            # if the path condition already entails 0 <= i < n the JAX wrap/clamp normalisation is the identity
+            if it.entails(in_range):
+                return SV(z3.Select(self.arr, e))
+        return SV(z3.Select(self.arr, self.norm_index(e)))
+
+    def raw(self, e):
+        return z3.Select(self.arr, e)
+
+    @property
+    def size(self):
+        return SV(self.n)
+
+    @property
+    def shape(self):
+        return (SV(self.n),)
+
+    def sym_len(self):
+        return SV(self.n)
